@@ -26,6 +26,9 @@ Definition lock_busy_unlinks : N := 0.
 (* permission bits (of a regular file owned by the caller) that _lock_stat accepts *)
 Definition lock_stat_accepts : list N := [128].
 Definition lock_stat_accepts_nonregular : bool := false.
+(* lock_query (munged --stop): flags of its open of the lock file; does a query without a lock file create one *)
+Definition lock_query_creat : bool := false.
+Definition lock_query_leaves_file : bool := false.
 (* conf->lockfile_name = conf->socket_name ++ suffix, as long as the result fits lock_name_max bytes *)
 Definition lock_name_suffix : list N := [46; 108; 111; 99; 107].
 Definition lock_name_max : N := 1023.
@@ -48,6 +51,12 @@ Definition seed_open_excl : bool := false.
 Definition seed_create_mode : N := 384.
 Definition seed_write_creates_missing : bool := true.
 Definition seed_write_renews_existing : bool := true.
+(* _random_read_entropy_from_file at start-up: on an absent and on a good seed file it does not return < 0; on an
+   untrusted one (mode 0644 / 0660, foreign owner, symbolic link) it removes the file and does not return < 0 either
+   (< 0 makes main() forget the seed path: no seed would be written at the clean stop) *)
+Definition seed_start_ok_keeps_path : bool := true.
+Definition seed_start_bad_keeps_path : bool := true.
+Definition seed_start_bad_removed : bool := true.
 (* munged.c, translated from the text: main() first makes descriptors 0-2 open (sanitize_std_fds: open /dev/null
    until the descriptor is > 2, close the last one); daemonize_fini dup2()s /dev/null onto these descriptors *)
 Definition main_sanitizes_std_fds : bool := true.
